@@ -180,7 +180,7 @@ pub fn readlink_fd(fd: RawFd) -> Result<String, i32> {
     let mut buf = vec![0u8; 8192];
     let n = unsafe { libc::readlinkat(fd, b"\0".as_ptr() as *const libc::c_char, buf.as_mut_ptr() as *mut libc::c_char, buf.len()) };
     if n < 0 { return Err(errno()); }
-    Ok(String::from_utf8_lossy(&buf[..n as usize]).into_owned())
+    Ok(proto::enc_bytes(&buf[..n as usize]))
 }
 
 pub fn getfl(fd: RawFd) -> i32 { unsafe { libc::fcntl(fd, libc::F_GETFL) } }
